@@ -6,7 +6,9 @@ enum { EV_OP = 1, EV_OP_RET, EV_HOOK_START, EV_HOOK_STOP, EV_CB, EV_LATE, EV_FAU
 enum { OP_CREATE = 1, OP_THREADS_CREATE, OP_ATTACH_FIRST, OP_SENDERS_START, OP_SENDERS_STOP, OP_ARM_EVENTS,
        OP_SHUTDOWN_MAIN, OP_SHUTDOWN_EXT, OP_SHUTDOWN_POOL, OP_WAIT_MAIN, OP_WAIT_POOL, OP_DESTROY_MAIN, OP_DESTROY_POOL,
        OP_SLEEP_US, OP_GO /* release the concurrent shutdown callers */, OP_JOIN_HELPERS, OP_THREADS_CREATE_AGAIN,
-       OP_GATE /* park worker arg inside a callback */, OP_FLOOD /* fill worker arg's queue until EAGAIN */, OP_UNGATE, OP_WAIT_T0 /* wait until thread 0 ran its start hook */ };
+       OP_GATE /* park worker arg inside a callback */, OP_FLOOD /* fill worker arg's queue until EAGAIN */, OP_UNGATE, OP_WAIT_T0 /* wait until thread 0 ran its start hook */,
+       OP_CLOSE_STDIN /* only as the first op: descriptor 0 is free when the pool is created */,
+       OP_DETTACH /* tp_thread_dettach() on slot arg, which has no thread in its event loop */ };
 enum { FK_NONE = 0, FK_CALLOC, FK_EPOLL_CREATE, FK_PIPE2, FK_EPOLL_CTL, FK_PTHREAD_CREATE, FK__N };
 
 static tp_p g_tp;
@@ -141,6 +143,7 @@ int main(void) {
 	g_fk_kind = vin_u8(&in); g_fk_k = vin_u32(&in); g_stop_hook_sleep_us = vin_u32(&in);
 	nops = vin_u16(&in);
 	tm_scn_seed = seed; tm_tid = 999;
+	if (nops && in.o < in.n && in.p[in.o] == OP_CLOSE_STDIN) close(0); /* before the baseline is taken */
 	/* warm up lazily-created process-wide state (sanitizer background thread) before the baseline */
 	{ pthread_t w; if (0 == __real_pthread_create(&w, NULL, sender_thr_nop, NULL)) pthread_join(w, NULL); }
 	{ struct timespec ts = {0, 2000000}; nanosleep(&ts, NULL); }
@@ -235,6 +238,12 @@ int main(void) {
 			break;
 		case OP_UNGATE:
 			while (gates) { sem_post(&g_gate_sem); gates--; }
+			break;
+		case OP_DETTACH:
+			if (!created) break;
+			TM_LOG(EV_OP, OP_DETTACH, arg % g_pool, 0, 0);
+			rc = tp_thread_dettach(tp_thread_get(g_tp, arg % g_pool));
+			TM_LOG(EV_OP_RET, OP_DETTACH, arg % g_pool, 0, rc);
 			break;
 		case OP_SLEEP_US: { struct timespec ts = {0, (long)arg * 1000}; nanosleep(&ts, NULL); } break;
 		case OP_JOIN_HELPERS:
